@@ -160,7 +160,8 @@ func (tx *Tx) LRem(bucket string, key []byte, count int, value []byte) (removedN
 		return 0, err
 	}
 
-	if count > size || -count > size {
+	// count < -size, not -count > size: -count overflows for math.MinInt64
+	if count > size || count < -size {
 		return 0, list.ErrCount
 	}
 
